@@ -25,8 +25,9 @@ class Contract:
     def __init__(self, module, qualname, params, requires=(), ensures=(), raises=None, modifies=(),
                  loops=None, lets=(), result=None, inline=False, axioms=(), props=(), neg_index=False,
                  ghost=None, closure=None, notes="", result_shape=None, types=None, pure=True,
-                 native=None, assume_result=None, kind="tier1", options=None):
+                 native=None, assume_result=None, kind="tier1", options=None, ghost_params=None):
         self.options = dict(options or {})
+        self.ghost_params = dict(ghost_params or {})
         self.module = module
         self.qualname = qualname
         self.params = dict(params)          # ordered name -> type string
